@@ -1,4 +1,5 @@
 import RactorModel.Lemmas.Life
+import RactorModel.Lemmas.LifeCell
 
 /-! Simulation of the `Life` actor by the C04 automaton (supervision events about one actor):
 at most one `ActorStarted`, right after `post_start` returned ok; at most one terminal event, of
@@ -13,12 +14,13 @@ def pastPostStart : Phase → Bool
 
 /-- Phase-independent facts about a live (not `done`) actor and the automaton state. -/
 structure Base (a : Actor) (s : St) : Prop where
-  preFailed : s.preFailed = false
-  terminal : s.terminalEmitted = false
-  stopVal : ∀ r, a.stopVal = some r → r.isUser = true ∧ s.stopReason = some r
+  preFailed : s.preFailed = false ∧ s.mustStart = false
+  terminal : s.terminalEmitted = false ∧ s.fanTerminal = none
+  stopVal : (∀ r, a.stopVal = some r → r.isUser = true ∧ s.stopReason = some r) ∧
+    (s.stopReason.isSome = true → a.stopVal.isSome = true ∨ s.took.isSome = true)
   drain : Item.drain ∈ a.msgQ → s.drainReq = true
   stopTx : s.stopReason.isSome = true → a.stopTx = false
-  kill : a.sigVal = true → s.killed = true ∨ a.sup = none
+  kill : a.sigVal = true → s.killed = true
   localEq : s.isLocal = a.isLocal
 
 /-- What holds of a live (not `done`) actor at op boundaries. -/
@@ -26,8 +28,8 @@ structure Core (a : Actor) (s : St) : Prop extends Base a s where
   armed : a.phase ≠ .fresh → a.armed = true
   notify : a.phase.isTask = true → a.notifyOnCancel = true
   started : s.startedEmitted = true → pastPostStart a.phase = true
-  postStop : ∀ r, a.phase = .postStop r →
-    (r.isUser = true ∧ s.stopReason = some r) ∨ (r = .drained ∧ s.drainReq = true)
+  postStop : (∀ r, a.phase = .postStop r → s.took = some r ∧ (r.isUser = true ∨ r = .drained)) ∧
+    (s.took.isSome = true → ∃ r, a.phase = .postStop r)
   freshSig : a.phase = .fresh → a.sigVal = false
 
 /-- Postcondition of every piece of a step of an actor that started the step with identity `id0`
@@ -41,8 +43,13 @@ variable (me : Nat)
 
 /-! ### the automaton on each kind of event -/
 
-@[simp] theorem next_enter (s : St) (cb : Cb) (x : Arg) :
-    next me s (.enter cb x) = .ok { s with startable := false } := rfl
+theorem next_enter (s : St) (cb : Cb) (x : Arg) (h : s.mustStart = false) :
+    next me s (.enter cb x) =
+      .ok { s with startable := false, took := if cb = .postStop then tookOf s else s.took } := by
+  simp [next, h]
+theorem next_enter' (s : St) (cb : Cb) (x : Arg) (h : s.mustStart = false) (hcb : cb ≠ .postStop) :
+    next me s (.enter cb x) = .ok { s with startable := false } := by
+  simp [next, h, hcb]
 @[simp] theorem next_tick (s : St) (cb : Cb) : next me s (.tick cb) = .ok s := rfl
 @[simp] theorem next_sendRet (s : St) (b : Bool) (m : Nat) (ok : Bool) :
     next me s (.sendRet b m ok) = .ok s := rfl
@@ -54,7 +61,11 @@ variable (me : Nat)
 @[simp] theorem next_callSent (s : St) (k : Nat) (b : Bool) : next me s (.callSent k b) = .ok s := rfl
 @[simp] theorem next_polled (s : St) : next me s .polled = .ok s := rfl
 @[simp] theorem next_waitRet (s : St) (w : Nat) (b : Bool) : next me s (.waitRet w b) = .ok s := rfl
-@[simp] theorem next_snap (s : St) (sn : Snap) : next me s (.snap sn) = .ok s := rfl
+theorem next_snap (s : St) (a : Actor) : next me s (.snap a.snap) = .ok s := by
+  simp [next, Actor.snap]
+
+theorem accepts_snapTail' (s : St) (a' : Actor) : accepts (next me) s (evs (snapTail a')) = .ok s := by
+  unfold snapTail; split <;> simp [accepts_cons, next_snap]
 @[simp] theorem next_isLocal (s : St) : next me s .isLocal = .ok { s with isLocal := true } := rfl
 @[simp] theorem next_supIs (s : St) (p : Option Nat) : next me s (.supIs p) = .ok { s with sup := p } := rfl
 @[simp] theorem next_aborted (s : St) : next me s .aborted = .ok { s with aborted := true } := rfl
@@ -73,8 +84,24 @@ theorem next_cancelled_other (s : St) (cb : Cb) (h : cb ≠ .preStart) :
 @[simp] theorem next_drainRet (s : St) (ok : Bool) :
     next me s (.drainRet ok) = .ok (if ok then { s with drainReq := true } else s) := by
   cases ok <;> rfl
-theorem next_spawnRet_err (s : St) (r : SpawnRet) (h : r ≠ .ok) : next me s (.spawnRet r) = .ok s := by
-  cases r <;> first | rfl | exact absurd rfl h
+/-- The spawn results of a start that failed for an ordinary reason. -/
+def SpawnRet.isFail : SpawnRet → Bool
+  | .killed | .nolink | .startup _ _ => true
+  | _ => false
+
+def failUpd (r : SpawnRet) (s : St) : St :=
+  match r with
+  | .killed => { s with preFailed := true }
+  | _ => s
+
+theorem failUpd_sup (r : SpawnRet) (s : St) : (failUpd r s).sup = s.sup := by cases r <;> rfl
+
+theorem next_spawnRet_err (s : St) (r : SpawnRet) (h : SpawnRet.isFail r = true) :
+    next me s (.spawnRet r) = .ok (failUpd r s) := by
+  cases r <;> first | rfl | simp [SpawnRet.isFail] at h
+@[simp] theorem next_spawnRet_registered (s : St) : next me s (.spawnRet .registered) = .ok s := rfl
+@[simp] theorem next_instant (s : St) : next me s .instant = .ok s := rfl
+@[simp] theorem next_treeKill (s : St) : next me s .treeKill = .ok { s with killed := true } := rfl
 theorem next_spawnRet_ok (s : St) (h : s.preFailed = false) : next me s (.spawnRet .ok) = .ok s := by
   simp [next, h]
 
@@ -83,7 +110,7 @@ def exitUpd (cb : Cb) (r : Res) (s : St) : St :=
   match cb, r with
   | .preStart, .ok => s
   | .preStart, _ => { s with preFailed := true }
-  | .postStart, .ok => { s with startable := true }
+  | .postStart, .ok => { s with startable := true, mustStart := s.sup.isSome }
   | .postStop, .ok => { s with postStopOk := true }
   | _, .ok => s
   | _, .err n => { s with fail := some (false, n) }
@@ -110,15 +137,39 @@ theorem next_join_cancelled (s : St) (ha : s.aborted = true)
   · rfl
 
 theorem next_emit_started (s : St) (p : Nat) (hsup : s.sup = some p) (hpf : s.preFailed = false)
-    (ht : s.terminalEmitted = false) (hse : s.startedEmitted = false) (hst : s.startable = true) :
-    next me s (.emit p (.started me)) = .ok { s with startedEmitted := true, startable := false } := by
-  simp [next, SupEv.who, SupEv.isTerminal, hsup, hpf, ht, hse, hst]
+    (ht : s.terminalEmitted = false ∧ s.fanTerminal = none) (hse : s.startedEmitted = false) (hst : s.startable = true) :
+    next me s (.emit p (.started me)) = .ok { s with startedEmitted := true, startable := false, mustStart := false } := by
+  simp [next, SupEv.who, SupEv.isTerminal, hsup, hpf, ht.1, hse, hst]
 
 theorem next_emit_terminal (s : St) (p : Nat) (e : SupEv) (hw : e.who = me) (hterm : e.isTerminal = true)
-    (hsup : s.sup = some p) (hpf : s.preFailed = false) (ht : s.terminalEmitted = false)
+    (hsup : s.sup = some p) (hpf : s.preFailed = false ∧ s.mustStart = false) (ht : s.terminalEmitted = false ∧ s.fanTerminal = none)
     (hc : classify s e = .ok ()) :
     next me s (.emit p e) = .ok { s with terminalEmitted := true } := by
-  simp [next, hw, hterm, hsup, hpf, ht, hc]
+  simp [next, hw, hterm, hsup, hpf.1, hpf.2, ht.1, ht.2, hc]
+
+theorem strip_who (e : SupEv) : e.strip.who = e.who := by cases e <;> rfl
+theorem strip_strip (e : SupEv) : e.strip.strip = e.strip := by cases e <;> rfl
+theorem strip_isTerminal (e : SupEv) : e.strip.isTerminal = e.isTerminal := by cases e <;> rfl
+
+/-- the supervisor's terminal event right after the monitors got their copy of it -/
+theorem next_emit_terminal_fan (s : St) (p : Nat) (e : SupEv) (hw : e.who = me) (hterm : e.isTerminal = true)
+    (hsup : s.sup = some p) (hpf : s.preFailed = false ∧ s.mustStart = false) (ht : s.terminalEmitted = false)
+    (hf : s.fanTerminal = some e.strip) (hc : classify s e = .ok ()) :
+    next me s (.emit p e) = .ok { s with terminalEmitted := true } := by
+  simp [next, hw, hterm, hsup, hpf.1, hpf.2, ht, hf, hc]
+
+theorem next_monFan_terminal (s : St) (reg : List Nat) (e : SupEv) (hw : e.who = me) (hterm : e.isTerminal = true)
+    (hpf : s.preFailed = false) (ht : s.terminalEmitted = false ∧ s.fanTerminal = none) :
+    next me s (.monFan reg reg e.strip) = .ok { s with fanTerminal := some e.strip } := by
+  simp [next, strip_who, strip_strip, strip_isTerminal, hw, hterm, hpf, ht.1, ht.2]
+
+theorem next_monFan_started (s : St) (reg : List Nat) (hpf : s.preFailed = false)
+    (ht : s.terminalEmitted = false ∧ s.fanTerminal = none) (hst : s.startable = true) :
+    next me s (.monFan reg reg (SupEv.started me).strip) = .ok s := by
+  simp [next, SupEv.strip, SupEv.who, SupEv.isTerminal, hpf, ht.1, ht.2, hst]
+
+theorem classify_fan (s : St) (x : Option SupEv) (e : SupEv) :
+    classify { s with fanTerminal := x } e = classify s e := rfl
 
 
 /-! ### exit paths -/
@@ -130,28 +181,95 @@ theorem cleanup_none (a : Actor) :
   · simp
   · cases hs : a.sup <;> simp [Actor.setStatus, hs]
 
+/-- `notify_supervisor` of a terminal event: the monitors' copy (if any), then the supervisor's. -/
+theorem notify_terminal (a : Actor) (e : SupEv) (s : St) (hsup : s.sup = a.sup)
+    (hpf : s.preFailed = false ∧ s.mustStart = false) (ht : s.terminalEmitted = false ∧ s.fanTerminal = none)
+    (hw : e.who = me) (hterm : e.isTerminal = true)
+    (hc : a.sup.isSome = true → classify s e = .ok ()) :
+    ∃ s', accepts (next me) s (evs (notifyOuts a e)) = .ok s' ∧ s'.sup = s.sup ∧
+      s'.aborted = s.aborted ∧ (s.sup.isSome = true → s'.terminalEmitted = true) := by
+  unfold notifyOuts
+  cases hm : a.mons with
+  | nil =>
+    cases hs : a.sup with
+    | none =>
+      refine ⟨s, by simp, rfl, rfl, ?_⟩
+      intro h; rw [hsup, hs] at h; simp at h
+    | some p =>
+      have hsp : s.sup = some p := by rw [hsup, hs]
+      refine ⟨{ s with terminalEmitted := true }, ?_, rfl, rfl, fun _ => rfl⟩
+      simp only [List.nil_append, evs_cons_ev, evs_nil]
+      rw [accepts_cons_ok _ _ (next_emit_terminal me s p e hw hterm hsp hpf ht (hc (by simp [hs])))]
+      rfl
+  | cons m ms =>
+    have hfan := next_monFan_terminal me s (m :: ms) e hw hterm hpf.1 ht
+    cases hs : a.sup with
+    | none =>
+      refine ⟨{ s with fanTerminal := some e.strip }, ?_, rfl, rfl, ?_⟩
+      · simp only [evs_append, evs_cons_ev, evs_map_monSend, evs_nil, List.append_nil]
+        rw [accepts_cons_ok _ _ hfan]
+        rfl
+      · intro h; rw [hsup, hs] at h; simp at h
+    | some p =>
+      have hsp : s.sup = some p := by rw [hsup, hs]
+      refine ⟨{ s with fanTerminal := some e.strip, terminalEmitted := true }, ?_, rfl, rfl, fun _ => rfl⟩
+      simp only [evs_append, evs_cons_ev, evs_map_monSend, evs_nil, List.append_nil, List.nil_append]
+      rw [List.cons_append, List.nil_append, accepts_cons_ok _ _ hfan]
+      rw [accepts_cons_ok _ _ (next_emit_terminal_fan me { s with fanTerminal := some e.strip } p e hw hterm hsp hpf ht.1 rfl
+        (by rw [classify_fan]; exact hc (by simp [hs])))]
+      rfl
+
+/-- `notify_supervisor_and_monitors(ActorStarted)` right after `post_start` returned ok. -/
+theorem notify_started (b : Actor) (s0 : St) (hid : b.id = me) (hsup : s0.sup = b.sup)
+    (hpf : s0.preFailed = false) (ht : s0.terminalEmitted = false ∧ s0.fanTerminal = none)
+    (hst : s0.startable = true) (hse : s0.startedEmitted = false) :
+    ∃ s', accepts (next me) s0 (evs (notifyOuts b (.started b.id))) = .ok s' ∧
+      ((b.sup = none ∧ s' = s0) ∨
+       (∃ p, b.sup = some p ∧ s' = { s0 with startedEmitted := true, startable := false, mustStart := false })) := by
+  rw [hid]
+  unfold notifyOuts
+  cases hm : b.mons with
+  | nil =>
+    cases hs : b.sup with
+    | none => exact ⟨s0, by simp, Or.inl ⟨rfl, rfl⟩⟩
+    | some p =>
+      refine ⟨_, ?_, Or.inr ⟨p, rfl, rfl⟩⟩
+      simp only [List.nil_append, evs_cons_ev, evs_nil]
+      rw [accepts_cons_ok _ _ (next_emit_started me s0 p (by rw [hsup, hs]) hpf ht hse hst)]
+      rfl
+  | cons m ms =>
+    have hfan := next_monFan_started me s0 (m :: ms) hpf ht hst
+    cases hs : b.sup with
+    | none =>
+      refine ⟨s0, ?_, Or.inl ⟨rfl, rfl⟩⟩
+      simp only [evs_append, evs_cons_ev, evs_map_monSend, evs_nil, List.append_nil]
+      rw [accepts_cons_ok _ _ hfan]
+      rfl
+    | some p =>
+      refine ⟨_, ?_, Or.inr ⟨p, rfl, rfl⟩⟩
+      simp only [evs_append, evs_cons_ev, evs_map_monSend, evs_nil, List.append_nil, List.nil_append]
+      rw [List.cons_append, List.nil_append, accepts_cons_ok _ _ hfan]
+      rw [accepts_cons_ok _ _ (next_emit_started me s0 p (by rw [hsup, hs]) hpf ht hse hst)]
+      rfl
+
 theorem cleanup_some (a : Actor) (e : SupEv) (s : St) (hid : a.id = me) (hsup : s.sup = a.sup)
-    (harmed : a.armed = true) (hpf : s.preFailed = false) (ht : s.terminalEmitted = false)
+    (harmed : a.armed = true) (hpf : s.preFailed = false ∧ s.mustStart = false) (ht : s.terminalEmitted = false ∧ s.fanTerminal = none)
     (hw : e.who = me) (hterm : e.isTerminal = true)
     (hc : a.sup.isSome = true → classify s e = .ok ()) :
     ∃ s', accepts (next me) s (evs (cleanup a (some e)).2) = .ok s' ∧ s'.sup = s.sup ∧
       s'.aborted = s.aborted ∧ (s.sup.isSome = true → s'.terminalEmitted = true) ∧
       (cleanup a (some e)).1.id = me ∧ (cleanup a (some e)).1.phase = a.phase := by
+  obtain ⟨s', hacc, h1, h2, h3⟩ := notify_terminal me ({ (a.setStatus .stopping) with kids := none } : Actor) e s
+    (by simpa [Actor.setStatus] using hsup) hpf ht hw hterm (by simpa [Actor.setStatus] using hc)
   unfold cleanup
   simp only [harmed, Bool.not_true, Bool.false_eq_true, ↓reduceIte]
-  cases hs : a.sup with
-  | none =>
-    refine ⟨s, by simp [Actor.setStatus, hs], rfl, rfl, ?_, by simp [Actor.setStatus, hid], by simp [Actor.setStatus]⟩
-    intro h; rw [hsup, hs] at h; simp at h
-  | some p =>
-    have hsp : s.sup = some p := by rw [hsup, hs]
-    refine ⟨{ s with terminalEmitted := true }, ?_, rfl, rfl, fun _ => rfl, by simp [Actor.setStatus, hid], by simp [Actor.setStatus]⟩
-    simp only [Actor.setStatus, hs, evs_append, evs_cons_eff, evs_cons_ev, evs_nil, List.nil_append, List.append_nil]
-    rw [accepts_cons_ok _ _ (next_emit_terminal me s p e hw hterm hsp hpf ht (hc (by simp [hs])))]
-    rfl
+  refine ⟨s', ?_, h1, h2, h3, by simp [Actor.setStatus, hid], by simp [Actor.setStatus]⟩
+  simp only [evs_append, evs_cons_eff, evs_nil, List.nil_append]
+  rw [accepts_append _ _ hacc]
+  cases hs : a.sup <;> simp [Actor.setStatus, hs]
 
 theorem finish_sim (a : Actor) (e : SupEv) (s : St) (hid : a.id = me) (hsup : s.sup = a.sup)
-    (harmed : a.armed = true) (hpf : s.preFailed = false) (ht : s.terminalEmitted = false)
+    (harmed : a.armed = true) (hpf : s.preFailed = false ∧ s.mustStart = false) (ht : s.terminalEmitted = false ∧ s.fanTerminal = none)
     (hw : e.who = me) (hterm : e.isTerminal = true)
     (hc : a.sup.isSome = true → classify s e = .ok ()) :
     Sim (next me) (Post me s.sup) s (finish a e) := by
@@ -163,10 +281,10 @@ theorem finish_sim (a : Actor) (e : SupEv) (s : St) (hid : a.id = me) (hsup : s.
     rfl
   · simpa [finish, Actor.dropPorts] using h4
 
-theorem failSpawn_sim (a : Actor) (r : SpawnRet) (s : St) (hid : a.id = me) (hr : r ≠ .ok) :
+theorem failSpawn_sim (a : Actor) (r : SpawnRet) (s : St) (hid : a.id = me) (hr : SpawnRet.isFail r = true) :
     Sim (next me) (Post me s.sup) s (failSpawn a r) := by
   obtain ⟨h1, h2, _⟩ := cleanup_none a
-  refine ⟨s, ?_, ?_, rfl, Or.inl (by simp [failSpawn, Actor.dropPorts])⟩
+  refine ⟨failUpd r s, ?_, ?_, failUpd_sup r s, Or.inl (by simp [failSpawn, Actor.dropPorts])⟩
   · simp only [failSpawn, andThen_snd, evs_append, h1, evs_cons_ev, evs_nil, List.nil_append]
     rw [accepts_cons_ok _ _ (next_spawnRet_err me s r hr)]
     rfl
@@ -177,7 +295,7 @@ theorem classify_killed_noState (s : St) (c : Nat) (hk : s.killed = true) :
   simp [classify, hk]
 
 theorem killedOutsideLoop_sim (a : Actor) (s : St) (hid : a.id = me) (hsup : s.sup = a.sup)
-    (harmed : a.armed = true) (hpf : s.preFailed = false) (ht : s.terminalEmitted = false)
+    (harmed : a.armed = true) (hpf : s.preFailed = false ∧ s.mustStart = false) (ht : s.terminalEmitted = false ∧ s.fanTerminal = none)
     (hk : a.sup.isSome = true → s.killed = true) :
     Sim (next me) (Post me s.sup) s (killedOutsideLoop a) := by
   unfold killedOutsideLoop
@@ -187,7 +305,7 @@ theorem killedOutsideLoop_sim (a : Actor) (s : St) (hid : a.id = me) (hsup : s.s
     (fun h => classify_killed_noState s1 _ (hk h))
 
 theorem killedInLoop_sim (a : Actor) (s : St) (hid : a.id = me) (hsup : s.sup = a.sup)
-    (harmed : a.armed = true) (hpf : s.preFailed = false) (ht : s.terminalEmitted = false)
+    (harmed : a.armed = true) (hpf : s.preFailed = false ∧ s.mustStart = false) (ht : s.terminalEmitted = false ∧ s.fanTerminal = none)
     (hk : a.sup.isSome = true → s.killed = true) :
     Sim (next me) (Post me s.sup) s (killedInLoop a) := by
   unfold killedInLoop
@@ -203,87 +321,126 @@ theorem killedInLoop_sim (a : Actor) (s : St) (hid : a.id = me) (hsup : s.sup = 
 theorem Base.notStartable {a : Actor} {s : St} (h : Base a s) : Base a { s with startable := false } :=
   ⟨h.preFailed, h.terminal, h.stopVal, h.drain, h.stopTx, h.kill, h.localEq⟩
 
-theorem enterPostStop_sim (a : Actor) (r : Reason) (s : St) (hid : a.id = me) (hb : Base a s)
-    (harmed : a.armed = true) (hn : a.notifyOnCancel = true)
-    (hr : (r.isUser = true ∧ s.stopReason = some r) ∨ (r = .drained ∧ s.drainReq = true)) :
+theorem tookOf_isSome (s : St) : (tookOf s).isSome = true := by
+  unfold tookOf; split <;> rfl
+
+theorem postStop_of_none {ph : Phase} {s : St} (h1 : ∀ r, ph ≠ .postStop r) (h2 : s.took = none) :
+    (∀ r, ph = .postStop r → s.took = some r ∧ (r.isUser = true ∨ r = .drained)) ∧
+    (s.took.isSome = true → ∃ r, ph = .postStop r) :=
+  ⟨fun r hr => absurd hr (h1 r), fun h => by rw [h2] at h; cases h⟩
+
+theorem Core.tookNone {a : Actor} {s : St} (hc : Core a s) (h : ∀ r, a.phase ≠ .postStop r) : s.took = none := by
+  cases ht : s.took with
+  | none => rfl
+  | some x =>
+    obtain ⟨r, hr⟩ := hc.postStop.2 (by simp [ht])
+    exact absurd hr (h r)
+
+/-- The loop leaves through `ActorLoopResult::stop(r)`: `post_stop` is entered; `r` is the request the
+automaton says the loop took. The stop port of `a` is empty (the stop was just taken out, or the
+drain marker was reached with no stop pending). -/
+theorem enterPostStop_sim (a : Actor) (r : Reason) (s : St) (hid : a.id = me)
+    (hpf : s.preFailed = false ∧ s.mustStart = false) (ht : s.terminalEmitted = false ∧ s.fanTerminal = none)
+    (hsv : a.stopVal = none) (hdr : Item.drain ∈ a.msgQ → s.drainReq = true)
+    (hstx : s.stopReason.isSome = true → a.stopTx = false) (hk : a.sigVal = true → s.killed = true)
+    (hloc : s.isLocal = a.isLocal)
+    (harmed : a.armed = true) (hn : a.notifyOnCancel = true) (htook : tookOf s = some r)
+    (hru : r.isUser = true ∨ r = .drained) :
     Sim (next me) (Post me s.sup) s (enterPostStop a r) := by
-  refine ⟨{ s with startable := false }, by simp [enterPostStop, accepts_cons], ?_, rfl, Or.inr ?_⟩
+  refine ⟨{ s with startable := false, took := tookOf s }, ?_, ?_, rfl, Or.inr ?_⟩
+  · simp [enterPostStop, accepts_cons, next_enter me s .postStop .none hpf.2]
   · simp [enterPostStop, Actor.setStatus, hid]
-  · exact { preFailed := hb.preFailed, terminal := hb.terminal,
-            localEq := (by simpa [enterPostStop, Actor.setStatus] using hb.localEq),
+  · exact { preFailed := hpf, terminal := ht,
+            localEq := (by simpa [enterPostStop, Actor.setStatus] using hloc),
             freshSig := (by intro hfr; simp [enterPostStop] at hfr),
-            stopVal := by simpa [enterPostStop, Actor.setStatus] using hb.stopVal,
-            drain := by simpa [enterPostStop, Actor.setStatus] using hb.drain,
-            stopTx := by simpa [enterPostStop, Actor.setStatus] using hb.stopTx,
-            kill := by simpa [enterPostStop, Actor.setStatus] using hb.kill,
+            stopVal := ⟨by intro r' hr'; simp [enterPostStop, Actor.setStatus, hsv] at hr',
+                        fun _ => Or.inr (tookOf_isSome s)⟩,
+            drain := by simpa [enterPostStop, Actor.setStatus] using hdr,
+            stopTx := by simpa [enterPostStop, Actor.setStatus] using hstx,
+            kill := by simpa [enterPostStop, Actor.setStatus] using hk,
             armed := by intro _; simpa [enterPostStop, Actor.setStatus] using harmed,
             notify := by intro _; simpa [enterPostStop, Actor.setStatus] using hn,
             started := by intro _; simp [enterPostStop, pastPostStart],
-            postStop := by
+            postStop := ⟨by
               intro r' hr'
               have : r' = r := by simpa [enterPostStop] using hr'.symm
-              subst this; simpa using hr }
+              subst this; exact ⟨htook, hru⟩,
+              fun _ => ⟨r, by simp [enterPostStop]⟩⟩ }
 
 theorem listen_sim (a : Actor) (s : St) (hid : a.id = me) (hsup : s.sup = a.sup) (hb : Base a s)
-    (harmed : a.armed = true) (hn : a.notifyOnCancel = true) :
+    (harmed : a.armed = true) (hn : a.notifyOnCancel = true) (htk : s.took = none) :
     Sim (next me) (Post me s.sup) s (listen a) := by
+  have hms := hb.preFailed.2
+  -- a live loop phase: nothing of the automaton's `took` yet
+  have hps : ∀ (ph : Phase) (s' : St), s'.took = s.took → (∀ r, ph ≠ .postStop r) →
+      (∀ r, ph = .postStop r → s'.took = some r ∧ (r.isUser = true ∨ r = .drained)) ∧
+      (s'.took.isSome = true → ∃ r, ph = .postStop r) := by
+    intro ph s' h1 h2
+    refine ⟨fun r hr => absurd hr (h2 r), ?_⟩
+    intro h; rw [h1, htk] at h; cases h
   unfold listen
   split
   · rename_i hsig
     refine killedInLoop_sim me _ s hid hsup harmed hb.preFailed hb.terminal ?_
-    intro h
-    rcases hb.kill hsig with hk | hk
-    · exact hk
-    · simp [hk] at h
+    intro _
+    exact hb.kill hsig
   · rename_i hsig
     simp only []
     split
     · rename_i r hr
       have hr' : a.stopVal = some r := hr
-      refine enterPostStop_sim me _ r s hid ?_ harmed hn (Or.inl (hb.stopVal r hr'))
-      exact ⟨hb.preFailed, hb.terminal, by simp, by simpa using hb.drain, by simpa using hb.stopTx, by simpa using hb.kill, by simpa using hb.localEq⟩
+      have hsr := (hb.stopVal.1 r hr').2
+      exact enterPostStop_sim me _ r s hid hb.preFailed hb.terminal rfl (by simpa using hb.drain)
+        (by simpa using hb.stopTx) (by simpa using hb.kill) (by simpa using hb.localEq) harmed hn
+        (by simp [tookOf, hsr]) (Or.inl (hb.stopVal.1 r hr').1)
     · rename_i hstop
       have hstop' : a.stopVal = none := hstop
+      have hnoStop : s.stopReason = none := by
+        cases hsr : s.stopReason with
+        | none => rfl
+        | some x =>
+          rcases hb.stopVal.2 (by simp [hsr]) with h | h
+          · rw [hstop'] at h; cases h
+          · rw [htk] at h; cases h
       split
       · rename_i e q hq
-        refine ⟨{ s with startable := false }, by simp [accepts_cons], hid, rfl, Or.inr ?_⟩
+        refine ⟨{ s with startable := false }, by simp [accepts_cons, next_enter' me s .sup _ hms], hid, rfl, Or.inr ?_⟩
         exact { preFailed := hb.preFailed, terminal := hb.terminal, localEq := (by simpa using hb.localEq), freshSig := (by intro hfr; simp at hfr),
                 stopVal := by simpa using hb.stopVal, drain := by simpa using hb.drain,
                 stopTx := by simpa using hb.stopTx, kill := by simpa using hb.kill,
                 armed := by intro _; simpa using harmed, notify := by intro _; simpa using hn,
-                started := by intro _; rfl, postStop := by intro r hr; simp at hr }
+                started := by intro _; rfl, postStop := hps _ _ rfl (by simp) }
       · split
         · rename_i m q hm
           have hm' : a.msgQ = .msg m :: q := hm
-          refine ⟨{ s with startable := false }, by simp [accepts_cons], hid, rfl, Or.inr ?_⟩
+          refine ⟨{ s with startable := false }, by simp [accepts_cons, next_enter' me s .handle _ hms], hid, rfl, Or.inr ?_⟩
           exact { preFailed := hb.preFailed, terminal := hb.terminal, localEq := (by simpa using hb.localEq), freshSig := (by intro hfr; simp at hfr),
                   stopVal := by simpa using hb.stopVal,
                   drain := by intro h; apply hb.drain; rw [hm']; exact List.mem_cons_of_mem _ (by simpa using h),
                   stopTx := by simpa using hb.stopTx, kill := by simpa using hb.kill,
                   armed := by intro _; simpa using harmed, notify := by intro _; simpa using hn,
-                  started := by intro _; rfl, postStop := by intro r hr; simp at hr }
+                  started := by intro _; rfl, postStop := hps _ _ rfl (by simp) }
         · rename_i k q hm
           have hm' : a.msgQ = .call k :: q := hm
-          refine ⟨{ s with startable := false }, by simp [accepts_cons], hid, rfl, Or.inr ?_⟩
+          refine ⟨{ s with startable := false }, by simp [accepts_cons, next_enter' me s .handle _ hms], hid, rfl, Or.inr ?_⟩
           exact { preFailed := hb.preFailed, terminal := hb.terminal, localEq := (by simpa using hb.localEq), freshSig := (by intro hfr; simp at hfr),
                   stopVal := by simpa using hb.stopVal,
                   drain := by intro h; apply hb.drain; rw [hm']; exact List.mem_cons_of_mem _ (by simpa using h),
                   stopTx := by simpa using hb.stopTx, kill := by simpa using hb.kill,
                   armed := by intro _; simpa using harmed, notify := by intro _; simpa using hn,
-                  started := by intro _; rfl, postStop := by intro r hr; simp at hr }
+                  started := by intro _; rfl, postStop := hps _ _ rfl (by simp) }
         · rename_i q hm
           have hm' : a.msgQ = .drain :: q := hm
-          refine enterPostStop_sim me _ .drained s hid ?_ harmed hn
-            (Or.inr ⟨rfl, hb.drain (by rw [hm']; exact List.mem_cons_self ..)⟩)
-          exact ⟨hb.preFailed, hb.terminal, by simpa using hb.stopVal,
-            by intro h; apply hb.drain; rw [hm']; exact List.mem_cons_of_mem _ (by simpa using h),
-            by simpa using hb.stopTx, by simpa using hb.kill, by simpa using hb.localEq⟩
+          exact enterPostStop_sim me _ .drained s hid hb.preFailed hb.terminal (by simpa using hstop')
+            (by intro h; apply hb.drain; rw [hm']; exact List.mem_cons_of_mem _ (by simpa using h))
+            (by simpa using hb.stopTx) (by simpa using hb.kill) (by simpa using hb.localEq) harmed hn
+            (by simp [tookOf, hnoStop]) (Or.inr rfl)
         · refine ⟨s, by simp, hid, rfl, Or.inr ?_⟩
           exact { preFailed := hb.preFailed, terminal := hb.terminal, localEq := (by simpa using hb.localEq), freshSig := (by intro hfr; simp at hfr),
                   stopVal := by simpa using hb.stopVal, drain := by simpa using hb.drain,
                   stopTx := by simpa using hb.stopTx, kill := by simpa using hb.kill,
                   armed := by intro _; simpa using harmed, notify := by intro _; simpa using hn,
-                  started := by intro _; rfl, postStop := by intro r hr; simp at hr }
+                  started := by intro _; rfl, postStop := hps _ _ rfl (by simp) }
 
 
 /-! ### API calls (harness ops and the self side effects of a segment) -/
@@ -317,8 +474,8 @@ theorem apiDrain_frame (a : Actor) : Frame a (apiDrain a).1 := by
 theorem Core.ofFrame {a0 a : Actor} {s0 s : St} (hf : Frame a0 a) (hc : Core a0 s0) (hb : Base a s)
     (hfs : a0.phase = .fresh → a.sigVal = false)
     (hse : s.startedEmitted = s0.startedEmitted)
-    (hps : ∀ r, a0.phase = .postStop r →
-      (r.isUser = true ∧ s.stopReason = some r) ∨ (r = .drained ∧ s.drainReq = true)) : Core a s :=
+    (hps : (∀ r, a0.phase = .postStop r → s.took = some r ∧ (r.isUser = true ∨ r = .drained)) ∧
+      (s.took.isSome = true → ∃ r, a0.phase = .postStop r)) : Core a s :=
   { hb with
     armed := by rw [hf.phase, hf.armed]; exact hc.armed
     notify := by rw [hf.phase, hf.notify]; exact hc.notify
@@ -336,7 +493,7 @@ theorem send_core {a : Actor} {s : St} (m : Nat) (hc : Core a s) : Core (apiSend
   obtain ⟨h1, h2, h3, h4⟩ := apiSend_fields a m
   have hf := apiSend_frame a m
   refine Core.ofFrame hf hc ⟨hc.preFailed, hc.terminal, by rw [h1]; exact hc.stopVal, ?_, by rw [h2]; exact hc.stopTx,
-    by rw [h3, hf.sup]; exact hc.kill, by rw [hf.isLocal]; simpa using hc.localEq⟩
+    by rw [h3]; exact hc.kill, by rw [hf.isLocal]; simpa using hc.localEq⟩
     (by rw [h3]; exact hc.freshSig) rfl hc.postStop
   intro hd
   apply hc.drain
@@ -366,18 +523,14 @@ theorem stop_core {a : Actor} {s : St} (r : Reason) (hu : r.isUser = true) (hc :
       | some x => have := hc.stopTx (by simp [hsr]); simp [this] at htx
     simp only [↓reduceIte]
     refine Core.ofFrame hf hc ⟨hc.preFailed, hc.terminal, ?_, by rw [h1]; exact hc.drain, fun _ => htx',
-      by rw [h2, hf.sup]; exact hc.kill, by rw [hf.isLocal]; simpa using hc.localEq⟩
-      (by rw [h2]; exact hc.freshSig) rfl ?_
-    · intro r' hr'; rw [hv] at hr'; cases hr'; exact ⟨hu, rfl⟩
-    · intro r' hp
-      rcases hc.postStop r' hp with ⟨_, h⟩ | h
-      · rw [hnone] at h; cases h
-      · exact Or.inr h
+      by rw [h2]; exact hc.kill, by rw [hf.isLocal]; simpa using hc.localEq⟩
+      (by rw [h2]; exact hc.freshSig) rfl hc.postStop
+    exact ⟨by intro r' hr'; rw [hv] at hr'; cases hr'; exact ⟨hu, rfl⟩, fun _ => Or.inl (by rw [hv]; rfl)⟩
   | false =>
     obtain ⟨hv, htx⟩ := h4 hr
     simp only [Bool.false_eq_true, ↓reduceIte]
     refine Core.ofFrame hf hc ⟨hc.preFailed, hc.terminal, by rw [hv]; exact hc.stopVal, by rw [h1]; exact hc.drain, ?_,
-      by rw [h2, hf.sup]; exact hc.kill, by rw [hf.isLocal]; simpa using hc.localEq⟩
+      by rw [h2]; exact hc.kill, by rw [hf.isLocal]; simpa using hc.localEq⟩
       (by rw [h2]; exact hc.freshSig) rfl hc.postStop
     intro h
     rcases htx with htx | htx
@@ -404,12 +557,12 @@ theorem kill_core {a : Actor} {s : St} (hc : Core a s) :
   | true =>
     simp only [↓reduceIte]
     exact Core.ofFrame hf hc ⟨hc.preFailed, hc.terminal, by rw [h2]; exact hc.stopVal, by rw [h1]; exact hc.drain,
-      by rw [h3]; exact hc.stopTx, fun _ => Or.inl rfl, by rw [hf.isLocal]; simpa using hc.localEq⟩
+      by rw [h3]; exact hc.stopTx, fun _ => rfl, by rw [hf.isLocal]; simpa using hc.localEq⟩
       (fun hfr => by rw [apiKill_fresh a hfr]; exact hc.freshSig hfr) rfl hc.postStop
   | false =>
     simp only [Bool.false_eq_true, ↓reduceIte]
     exact Core.ofFrame hf hc ⟨hc.preFailed, hc.terminal, by rw [h2]; exact hc.stopVal, by rw [h1]; exact hc.drain,
-      by rw [h3]; exact hc.stopTx, by rw [h4 hr, hf.sup]; exact hc.kill, by rw [hf.isLocal]; simpa using hc.localEq⟩
+      by rw [h3]; exact hc.stopTx, by rw [h4 hr]; exact hc.kill, by rw [hf.isLocal]; simpa using hc.localEq⟩
       (fun hfr => by rw [apiKill_fresh a hfr]; exact hc.freshSig hfr) rfl hc.postStop
 
 theorem kill_killStrong {a : Actor} {s : St} (h : KillStrong a s) :
@@ -432,18 +585,14 @@ theorem drain_core {a : Actor} {s : St} (hc : Core a s) :
   | true =>
     simp only [↓reduceIte]
     refine Core.ofFrame hf hc ⟨hc.preFailed, hc.terminal, by rw [h1]; exact hc.stopVal, fun _ => rfl,
-      by rw [h2]; exact hc.stopTx, by rw [h3, hf.sup]; exact hc.kill, by rw [hf.isLocal]; simpa using hc.localEq⟩
-      (by rw [h3]; exact hc.freshSig) rfl ?_
-    intro r hp
-    rcases hc.postStop r hp with h | ⟨h, _⟩
-    · exact Or.inl h
-    · exact Or.inr ⟨h, rfl⟩
+      by rw [h2]; exact hc.stopTx, by rw [h3]; exact hc.kill, by rw [hf.isLocal]; simpa using hc.localEq⟩
+      (by rw [h3]; exact hc.freshSig) rfl hc.postStop
   | false =>
     simp only [Bool.false_eq_true, ↓reduceIte]
     rcases h4 with h4 | h4
     · rw [hr] at h4; cases h4
     · exact Core.ofFrame hf hc ⟨hc.preFailed, hc.terminal, by rw [h1]; exact hc.stopVal, by rw [h4]; exact hc.drain,
-        by rw [h2]; exact hc.stopTx, by rw [h3, hf.sup]; exact hc.kill, by rw [hf.isLocal]; simpa using hc.localEq⟩
+        by rw [h2]; exact hc.stopTx, by rw [h3]; exact hc.kill, by rw [hf.isLocal]; simpa using hc.localEq⟩
         (by rw [h3]; exact hc.freshSig) rfl hc.postStop
 
 theorem Core.congr {a a' : Actor} {s : St} (h0 : a'.phase = a.phase) (h1 : a'.armed = a.armed)
@@ -456,7 +605,23 @@ theorem Core.congr {a a' : Actor} {s : St} (h0 : a'.phase = a.phase) (h1 : a'.ar
     stopVal := by rw [h3]; exact hc.stopVal
     drain := by rw [h4]; exact hc.drain
     stopTx := by rw [h5]; exact hc.stopTx
-    kill := by rw [h6, h7]; exact hc.kill
+    kill := by rw [h6]; exact hc.kill
+    armed := by rw [h0, h1]; exact hc.armed
+    notify := by rw [h0, h2]; exact hc.notify
+    started := by rw [h0]; exact hc.started
+    postStop := by rw [h0]; exact hc.postStop }
+
+theorem Core.congr' {a a' : Actor} {s : St} (h0 : a'.phase = a.phase) (h1 : a'.armed = a.armed)
+    (h2 : a'.notifyOnCancel = a.notifyOnCancel) (h3 : a'.stopVal = a.stopVal) (h4 : a'.msgQ = a.msgQ)
+    (h5 : a'.stopTx = a.stopTx) (h6 : a'.sigVal = a.sigVal)
+    (h8 : a'.isLocal = a.isLocal) (hc : Core a s) : Core a' s :=
+  { preFailed := hc.preFailed, terminal := hc.terminal
+    localEq := by rw [h8]; exact hc.localEq
+    freshSig := by rw [h0, h6]; exact hc.freshSig
+    stopVal := by rw [h3]; exact hc.stopVal
+    drain := by rw [h4]; exact hc.drain
+    stopTx := by rw [h5]; exact hc.stopTx
+    kill := by rw [h6]; exact hc.kill
     armed := by rw [h0, h1]; exact hc.armed
     notify := by rw [h0, h2]; exact hc.notify
     started := by rw [h0]; exact hc.started
@@ -499,6 +664,7 @@ theorem runFx_sim (a : Actor) (s : St) (f : Fx) (hc : Core a s) :
     · exact ⟨s, by simp [accepts_cons], ⟨rfl, rfl, rfl, rfl, rfl, rfl⟩, rfl,
         hc.congr (by rfl) (by rfl) (by rfl) (by rfl) (by rfl) (by rfl) (by rfl) (by rfl) (by rfl), id⟩
     · exact ⟨s, by simp [accepts_cons], Frame.refl a, rfl, hc, id⟩
+  | spawnChild c => exact ⟨s, by simp [runFx, accepts_cons, next], Frame.refl a, rfl, hc, id⟩
 
 theorem runFxs_sim (fs : List Fx) (a : Actor) (s : St) (hc : Core a s) :
     Sim (next me) (FxRel a s) s (runFxs a fs) := by
@@ -550,11 +716,11 @@ theorem classify_failed (s : St) (c : Nat) (p : Bool) (n : Nat) (h : s.fail = so
   simp [classify, h]
 
 theorem classify_graceful (s : St) (c : Nat) (r : Reason) (hps : s.postStopOk = true)
-    (hr : (r.isUser = true ∧ s.stopReason = some r) ∨ (r = .drained ∧ s.drainReq = true)) :
+    (hr : r.isUser = true ∨ r = .drained) (htk : s.took = some r) :
     classify s (.terminated c (!s.isLocal) r) = .ok () := by
-  rcases hr with ⟨hu, hs⟩ | ⟨hd, hq⟩
-  · cases r <;> simp [Reason.isUser] at hu <;> cases hl : s.isLocal <;> simp [classify, hps, hs, hl]
-  · subst hd; cases hl : s.isLocal <;> simp [classify, hps, hq, hl]
+  rcases hr with hu | hd
+  · cases r <;> simp [Reason.isUser] at hu <;> cases hl : s.isLocal <;> simp [classify, hps, htk, hl]
+  · subst hd; cases hl : s.isLocal <;> simp [classify, hps, htk, hl]
 
 theorem classify_cancelled (s : St) (c : Nat) (h : s.aborted = true) :
     classify s (.terminated c false .cancelled) = .ok () := by
@@ -564,7 +730,7 @@ theorem Base.congr {a a' : Actor} {s : St} (h3 : a'.stopVal = a.stopVal) (h4 : a
     (h5 : a'.stopTx = a.stopTx) (h6 : a'.sigVal = a.sigVal) (h7 : a'.sup = a.sup)
     (h8 : a'.isLocal = a.isLocal) (hb : Base a s) : Base a' s :=
   ⟨hb.preFailed, hb.terminal, by rw [h3]; exact hb.stopVal, by rw [h4]; exact hb.drain,
-   by rw [h5]; exact hb.stopTx, by rw [h6, h7]; exact hb.kill, by rw [h8]; exact hb.localEq⟩
+   by rw [h5]; exact hb.stopTx, by rw [h6]; exact hb.kill, by rw [h8]; exact hb.localEq⟩
 
 theorem exitUpd_sup (cb : Cb) (r : Res) (s : St) : (exitUpd cb r s).sup = s.sup := by
   cases cb <;> cases r <;> rfl
@@ -576,9 +742,21 @@ theorem exitUpd_preFailed (cb : Cb) (r : Res) (s : St) (h : cb ≠ .preStart) :
     (exitUpd cb r s).preFailed = s.preFailed := by
   cases cb <;> cases r <;> first | rfl | exact absurd rfl h
 
-theorem exitUpd_base {a : Actor} {s : St} (cb : Cb) (r : Res) (h : cb ≠ .preStart) (hb : Base a s) :
+theorem exitUpd_mustStart (cb : Cb) (r : Res) (s : St) (h : cb = .postStart → r = .ok → s.sup = none)
+    (hm : s.mustStart = false) : (exitUpd cb r s).mustStart = false := by
+  cases cb <;> cases r <;> first | exact hm | (simp [exitUpd, h rfl rfl])
+
+theorem exitUpd_took (cb : Cb) (r : Res) (s : St) : (exitUpd cb r s).took = s.took := by
+  cases cb <;> cases r <;> rfl
+
+theorem exitUpd_fan (cb : Cb) (r : Res) (s : St) : (exitUpd cb r s).fanTerminal = s.fanTerminal := by
+  cases cb <;> cases r <;> rfl
+
+theorem exitUpd_base {a : Actor} {s : St} (cb : Cb) (r : Res) (h : cb ≠ .preStart)
+    (h2 : cb = .postStart → r = .ok → s.sup = none) (hb : Base a s) :
     Base a (exitUpd cb r s) := by
-  refine ⟨by rw [exitUpd_preFailed cb r s h]; exact hb.preFailed, by rw [exitUpd_terminal]; exact hb.terminal, ?_, ?_, ?_, ?_, ?_⟩
+  refine ⟨⟨by rw [exitUpd_preFailed cb r s h]; exact hb.preFailed.1, exitUpd_mustStart cb r s h2 hb.preFailed.2⟩,
+    by rw [exitUpd_terminal, exitUpd_fan]; exact hb.terminal, ?_, ?_, ?_, ?_, ?_⟩
   · cases cb <;> cases r <;> exact hb.stopVal
   · cases cb <;> cases r <;> exact hb.drain
   · cases cb <;> cases r <;> exact hb.stopTx
@@ -599,7 +777,8 @@ theorem failed_sim (a a' : Actor) (s2 : St) (cb : Cb) (r : Res) (hid : a.id = me
     Sim (next me) (Post me s2.sup) (exitUpd cb r s2) (finish a' (failedEv a r)) := by
   have := finish_sim me a' (failedEv a r) (exitUpd cb r s2) (by rw [h1]; exact hid)
     (by rw [exitUpd_sup, h2]; exact hsup) (by rw [h3]; exact harmed)
-    (by rw [exitUpd_preFailed cb r s2 hcb]; exact hb.preFailed) (by rw [exitUpd_terminal]; exact hb.terminal)
+    ⟨by rw [exitUpd_preFailed cb r s2 hcb]; exact hb.preFailed.1,
+     exitUpd_mustStart cb r s2 (fun _ h => absurd h hr) hb.preFailed.2⟩ (by rw [exitUpd_terminal, exitUpd_fan]; exact hb.terminal)
     (by cases r <;> simp [failedEv, SupEv.who, hid]) (by cases r <;> rfl)
     (fun _ => exitUpd_fail cb r s2 hcb hr a)
   rwa [exitUpd_sup] at this
@@ -612,13 +791,16 @@ theorem afterExit_sim (a : Actor) (s2 : St) (cb : Cb) (r : Res) (hid : a.id = me
   subst hid
   have harmed : a.armed = true := hc.armed (by intro h; simp [h, Phase.isTask] at htask)
   have hn : a.notifyOnCancel = true := hc.notify htask
-  have hlisten : cb ≠ .preStart → Sim (next a.id) (Post a.id s2.sup) (exitUpd cb r s2) (listen a) := by
-    intro h
+  have hlisten : cb ≠ .preStart → cb ≠ .postStart → (∀ x, a.phase ≠ .postStop x) →
+      Sim (next a.id) (Post a.id s2.sup) (exitUpd cb r s2) (listen a) := by
+    intro h h' hnp
     have := listen_sim a.id a (exitUpd cb r s2) rfl (by rw [exitUpd_sup]; exact hsup)
-      (exitUpd_base cb r h hc.toBase) harmed hn
+      (exitUpd_base cb r h (fun hx => absurd hx h') hc.toBase) harmed hn
+      (by rw [exitUpd_took]; exact hc.tookNone hnp)
     rwa [exitUpd_sup] at this
   cases hph : a.phase with
   | fresh => simp [hph, Phase.isTask] at htask
+  | cell => simp [hph, Phase.isTask] at htask
   | pre => simp [hph, Phase.isTask] at htask
   | done => simp [hph, Phase.isTask] at htask
   | ready => simp [hph, Phase.openCb] at hcb
@@ -633,24 +815,22 @@ theorem afterExit_sim (a : Actor) (s2 : St) (cb : Cb) (r : Res) (hid : a.id = me
         cases h : s2.startedEmitted with
         | false => rfl
         | true => have := hc.started h; simp [hph, pastPostStart] at this
-      have hb := exitUpd_base (a := a) .postStart .ok (by simp) hc.toBase
-      refine Sim.andThen _ (R1 := fun a1 s1 => a1 = a.setStatus .running ∧ s1.sup = s2.sup ∧ Base a1 s1) ?_ ?_
-      · cases hs : a.sup with
-        | none =>
-          exact ⟨exitUpd .postStart .ok s2, by simp [Actor.setStatus, hs], rfl, rfl,
-            hb.congr (by rfl) (by rfl) (by rfl) (by rfl) (by rfl) (by rfl)⟩
-        | some p =>
-          refine ⟨{ (exitUpd .postStart .ok s2) with startedEmitted := true, startable := false }, ?_, rfl, rfl, ?_⟩
-          · simp only [Actor.setStatus, hs, evs_cons_ev, evs_nil]
-            rw [accepts_cons_ok _ _ (by
-              exact next_emit_started a.id (exitUpd .postStart .ok s2) p (by rw [exitUpd_sup, hsup, hs])
-                hb.preFailed hb.terminal hse rfl)]
-            rfl
-          · exact ⟨hb.preFailed, hb.terminal, hb.stopVal, hb.drain, hb.stopTx, hb.kill, by simpa [Actor.setStatus] using hb.localEq⟩
-      · rintro a1 s1 ⟨rfl, hs1, hb1⟩
+      have htk0 : s2.took = none := hc.tookNone (by simp [hph])
+      refine Sim.andThen _ (R1 := fun a1 s1 => a1 = a.setStatus .running ∧ s1.sup = s2.sup ∧ Base a1 s1 ∧ s1.took = none) ?_ ?_
+      · obtain ⟨s', hacc, hcase⟩ := notify_started a.id (a.setStatus .running) (exitUpd .postStart .ok s2)
+          (by simp [Actor.setStatus]) (by rw [exitUpd_sup]; simpa [Actor.setStatus] using hsup)
+          hc.preFailed.1 hc.terminal rfl hse
+        rcases hcase with ⟨hs, rfl⟩ | ⟨p, hs, rfl⟩
+        · have hs' : a.sup = none := by simpa [Actor.setStatus] using hs
+          have hb := exitUpd_base (a := a) .postStart .ok (by simp) (fun _ _ => by rw [hsup, hs']) hc.toBase
+          exact ⟨_, hacc, rfl, rfl, hb.congr (by rfl) (by rfl) (by rfl) (by rfl) (by rfl) (by rfl), htk0⟩
+        · exact ⟨_, hacc, rfl, rfl,
+            ⟨⟨hc.preFailed.1, rfl⟩, hc.terminal, hc.stopVal, hc.drain, hc.stopTx, hc.kill,
+              by have := hc.localEq; simpa [exitUpd, Actor.setStatus] using this⟩, htk0⟩
+      · rintro a1 s1 ⟨rfl, hs1, hb1, htk1⟩
         have := listen_sim a.id (a.setStatus .running) s1 (by simp [Actor.setStatus])
           (by rw [hs1]; simpa [Actor.setStatus] using hsup) hb1 (by simpa [Actor.setStatus] using harmed)
-          (by simpa [Actor.setStatus] using hn)
+          (by simpa [Actor.setStatus] using hn) htk1
         rwa [hs1] at this
     | err n =>
       simp only [afterExit, hph]
@@ -662,7 +842,7 @@ theorem afterExit_sim (a : Actor) (s2 : St) (cb : Cb) (r : Res) (hid : a.id = me
     have hcb' : cb = .handle := by simp [hph, Phase.openCb] at hcb; exact hcb.symm
     subst hcb'
     cases r with
-    | ok => simp only [afterExit, hph]; exact hlisten (by simp)
+    | ok => simp only [afterExit, hph]; exact hlisten (by simp) (by simp) (by simp [hph])
     | err n =>
       simp only [afterExit, hph]
       exact failed_sim a.id a _ s2 _ _ rfl hsup hc.toBase harmed (by simp) (by simp) rfl rfl rfl
@@ -673,7 +853,7 @@ theorem afterExit_sim (a : Actor) (s2 : St) (cb : Cb) (r : Res) (hid : a.id = me
     have hcb' : cb = .sup := by simp [hph, Phase.openCb] at hcb; exact hcb.symm
     subst hcb'
     cases r with
-    | ok => simp only [afterExit, hph]; exact hlisten (by simp)
+    | ok => simp only [afterExit, hph]; exact hlisten (by simp) (by simp) (by simp [hph])
     | err n =>
       simp only [afterExit, hph]
       exact failed_sim a.id a _ s2 _ _ rfl hsup hc.toBase harmed (by simp) (by simp) rfl rfl rfl
@@ -686,11 +866,11 @@ theorem afterExit_sim (a : Actor) (s2 : St) (cb : Cb) (r : Res) (hid : a.id = me
     cases r with
     | ok =>
       simp only [afterExit, hph]
-      have hb := exitUpd_base (a := a) .postStop .ok (by simp) hc.toBase
+      have hb := exitUpd_base (a := a) .postStop .ok (by simp) (by intro h; cases h) hc.toBase
       have hloc : a.isLocal = (exitUpd .postStop .ok s2).isLocal := hb.localEq.symm
       have := finish_sim a.id a (.terminated a.id (!a.isLocal) rs) (exitUpd .postStop .ok s2) rfl
         (by rw [exitUpd_sup]; exact hsup) harmed hb.preFailed hb.terminal (by simp [SupEv.who]) rfl
-        (fun _ => by rw [hloc]; exact classify_graceful (exitUpd .postStop .ok s2) _ rs rfl (hc.postStop rs hph))
+        (fun _ => by rw [hloc]; exact classify_graceful (exitUpd .postStop .ok s2) _ rs rfl (hc.postStop.1 rs hph).2 (hc.postStop.1 rs hph).1)
       rwa [exitUpd_sup] at this
     | err n =>
       simp only [afterExit, hph]
@@ -710,10 +890,10 @@ theorem afterPre_sim (a : Actor) (s2 : St) (supOk : Bool) (r : Res) (hid : a.id 
   have harmed : a.armed = true := hc.armed (by simp [hph])
   cases r with
   | err n =>
-    have := failSpawn_sim me a (.startup false n) (exitUpd .preStart (.err n) s2) hid (by simp)
+    have := failSpawn_sim me a (.startup false n) (exitUpd .preStart (.err n) s2) hid rfl
     simpa [afterPre, exitUpd_sup] using this
   | panic n =>
-    have := failSpawn_sim me a (.startup true n) (exitUpd .preStart (.panic n) s2) hid (by simp)
+    have := failSpawn_sim me a (.startup true n) (exitUpd .preStart (.panic n) s2) hid rfl
     simpa [afterPre, exitUpd_sup] using this
   | ok =>
     simp only [afterPre]
@@ -728,22 +908,22 @@ theorem afterPre_sim (a : Actor) (s2 : St) (supOk : Bool) (r : Res) (hid : a.id 
               stopVal := by rw [h5]; exact hc.stopVal
               drain := by rw [h6]; exact hc.drain
               stopTx := by rw [h7]; exact hc.stopTx
-              kill := by rw [h8]; intro h; exact Or.inl (hks h)
+              kill := by rw [h8]; intro h; exact hks h
               armed := by intro _; rw [h3]; exact harmed
               notify := by intro _; exact h4
               started := by intro h; rw [show (exitUpd Cb.preStart Res.ok s2).startedEmitted = s2.startedEmitted from rfl, hse] at h; cases h
-              postStop := by intro r hr; rw [h2] at hr; cases hr }
+              postStop := postStop_of_none (by rw [h2]; simp) (hc.tookNone (by simp [hph])) }
     split
     · split
-      · have := failSpawn_sim me a .nolink (exitUpd .preStart .ok s2) hid (by simp)
+      · have := failSpawn_sim me a .nolink (exitUpd .preStart .ok s2) hid rfl
         simpa [exitUpd_sup] using this
       · refine ⟨exitUpd .preStart .ok s2, ?_, hlinked _ rfl rfl rfl rfl rfl rfl rfl rfl rfl⟩
-        simp only [evs_cons_eff, evs_cons_ev, evs_nil]
-        rw [accepts_cons_ok _ _ (next_spawnRet_ok me (exitUpd .preStart .ok s2) hc.preFailed)]
+        simp only [andThen_snd, evs_append, evs_doLink, evs_cons_ev, evs_nil, List.nil_append]
+        rw [accepts_cons_ok _ _ (next_spawnRet_ok me (exitUpd .preStart .ok s2) hc.preFailed.1)]
         rfl
     · refine ⟨exitUpd .preStart .ok s2, ?_, hlinked _ rfl rfl rfl rfl rfl rfl rfl rfl rfl⟩
       simp only [evs_cons_ev, evs_nil]
-      rw [accepts_cons_ok _ _ (next_spawnRet_ok me (exitUpd .preStart .ok s2) hc.preFailed)]
+      rw [accepts_cons_ok _ _ (next_spawnRet_ok me (exitUpd .preStart .ok s2) hc.preFailed.1)]
       rfl
 
 theorem openCb_ne_pre {ph : Phase} {cb : Cb} (h : ph.openCb = some cb) (ht : ph.isTask = true) : cb ≠ .preStart := by
@@ -758,10 +938,8 @@ theorem pollOpen_sim (a : Actor) (s : St) (cb : Cb) (hid : a.id = me) (hsup : s.
   split
   · rename_i hsig
     have hk : a.sup.isSome = true → s.killed = true := by
-      intro h
-      rcases hc.kill hsig with hk | hk
-      · exact hk
-      · simp [hk] at h
+      intro _
+      exact hc.kill hsig
     refine Sim.andThen _ (R1 := fun a1 s1 => s1 = s ∧ a1 = { a with woken := false, sigVal := false })
       ⟨s, by simp [say, accepts_cons, next_cancelled_other me s cb (openCb_ne_pre hcb htask)], rfl, rfl⟩ ?_
     rintro a1 s1 ⟨rfl, rfl⟩
@@ -799,12 +977,10 @@ theorem opPoll_sim (a : Actor) (s : St) (h : Inv me a s) : Sim (next me) (Post m
     split
     · rename_i hsig
       have hk : a.sup.isSome = true → s.killed = true := by
-        intro h'
-        rcases hc.kill hsig with hk | hk
-        · exact hk
-        · simp [hk] at h'
+        intro _
+        exact hc.kill hsig
       exact killedOutsideLoop_sim me _ s hid hsup harmed hc.preFailed hc.terminal hk
-    · refine ⟨{ s with startable := false }, by simp [accepts_cons], hid, rfl, Or.inr ?_⟩
+    · refine ⟨{ s with startable := false }, by simp [accepts_cons, next_enter' me s .postStart _ hc.preFailed.2], hid, rfl, Or.inr ?_⟩
       have hse : s.startedEmitted = false := by
         cases h' : s.startedEmitted with
         | false => rfl
@@ -817,11 +993,11 @@ theorem opPoll_sim (a : Actor) (s : St) (h : Inv me a s) : Sim (next me) (Post m
               armed := by intro _; simpa using harmed
               notify := by intro _; simpa using hc.notify (by simp [hph, Phase.isTask])
               started := by intro h'; simp [hse] at h'
-              postStop := by intro r hr; simp at hr }
+              postStop := postStop_of_none (by simp) (hc.tookNone (by simp [hph])) }
   · rename_i hph
     have hc := Inv.core me h (by simp [hph])
     exact listen_sim me _ s hid hsup (hc.toBase.congr (by rfl) (by rfl) (by rfl) (by rfl) (by rfl) (by rfl))
-      (hc.armed (by simp [hph])) (hc.notify (by simp [hph, Phase.isTask]))
+      (hc.armed (by simp [hph])) (hc.notify (by simp [hph, Phase.isTask])) (hc.tookNone (by simp [hph]))
   · rename_i hph
     exact pollOpen_sim me a s _ hid hsup (Inv.core me h (by simp [hph])) (by simp [hph, Phase.openCb]) (by simp [hph, Phase.isTask])
   · rename_i hph
@@ -845,7 +1021,7 @@ theorem opSpawn_sim (a : Actor) (s : St) (sup : Option Nat) (name : Option Strin
     split
     · refine ⟨s, ?_, by rw [hsup]; exact h⟩
       simp only [evs_cons_ev, evs_nil]
-      rw [accepts_cons_ok _ _ (next_spawnRet_err me s .registered (by simp))]
+      rw [accepts_cons_ok _ _ (next_spawnRet_registered me s)]
       rfl
     have hc := Inv.core me h (by simp [hph])
     have hse : s.startedEmitted = false := by
@@ -857,42 +1033,144 @@ theorem opSpawn_sim (a : Actor) (s : St) (sup : Option Nat) (name : Option Strin
     have hnew : ∀ (a' : Actor) (s' : St), a'.phase = .pre → a'.armed = true → a'.stopVal = a.stopVal →
         a'.msgQ = a.msgQ → a'.stopTx = a.stopTx → a'.sigVal = a.sigVal → s'.isLocal = a'.isLocal →
         s'.preFailed = s.preFailed → s'.terminalEmitted = s.terminalEmitted → s'.stopReason = s.stopReason →
-        s'.drainReq = s.drainReq → s'.startedEmitted = s.startedEmitted → Core a' s' := by
-      intro a' s' h0 h1 h3 h4 h5 h6 hl p1 p2 p3 p4 p5
-      exact { preFailed := by rw [p1]; exact hc.preFailed, terminal := by rw [p2]; exact hc.terminal
+        s'.drainReq = s.drainReq → s'.startedEmitted = s.startedEmitted → s'.mustStart = s.mustStart →
+        s'.took = s.took → s'.fanTerminal = s.fanTerminal → Core a' s' := by
+      intro a' s' h0 h1 h3 h4 h5 h6 hl p1 p2 p3 p4 p5 p7 p8 p9
+      exact { preFailed := by rw [p1, p7]; exact hc.preFailed, terminal := by rw [p2, p9]; exact hc.terminal
               localEq := hl
               freshSig := by intro hfr; rw [h0] at hfr; cases hfr
-              stopVal := by rw [h3, p3]; exact hc.stopVal
+              stopVal := by rw [h3, p3, p8]; exact hc.stopVal
               drain := by rw [h4, p4]; exact hc.drain
               stopTx := by rw [h5, p3]; exact hc.stopTx
               kill := by rw [h6, hsig]; intro hk; cases hk
               armed := by intro _; exact h1
               notify := by intro h'; rw [h0] at h'; simp [Phase.isTask] at h'
               started := by intro h'; rw [p5, hse] at h'; cases h'
-              postStop := by intro r hr; rw [h0] at hr; cases hr }
+              postStop := postStop_of_none (by rw [h0]; simp) (by rw [p8]; exact hc.tookNone (by simp [hph])) }
     split
     · split
       · split
         · -- thread-local, link refused: nothing happened
           refine ⟨s, ?_, by rw [hsup]; exact h⟩
           simp only [evs_cons_ev, evs_nil]
-          rw [accepts_cons_ok _ _ (next_spawnRet_err me s .nolink (by simp))]
+          rw [accepts_cons_ok _ _ (next_spawnRet_err me s .nolink rfl)]
           rfl
-        · refine ⟨{ s with isLocal := true, startable := false }, by simp [accepts_cons], hid, rfl, Or.inr ?_⟩
-          exact hnew _ _ rfl rfl rfl rfl rfl rfl rfl rfl rfl rfl rfl rfl
-      · refine ⟨{ s with isLocal := true, startable := false }, by simp [accepts_cons], hid, rfl, Or.inr ?_⟩
-        exact hnew _ _ rfl rfl rfl rfl rfl rfl rfl rfl rfl rfl rfl rfl
-    · refine ⟨{ s with startable := false }, by simp [accepts_cons], hid, rfl, Or.inr ?_⟩
-      exact hnew _ _ rfl rfl rfl rfl rfl rfl (by simpa using hc.localEq) rfl rfl rfl rfl rfl
+        · refine ⟨{ s with isLocal := true, startable := false },
+            by simp [accepts_cons, next_enter' me _ .preStart _ (show ({ s with isLocal := true } : St).mustStart = false from hc.preFailed.2)],
+            hid, rfl, Or.inr ?_⟩
+          exact hnew _ _ rfl rfl rfl rfl rfl rfl rfl rfl rfl rfl rfl rfl rfl rfl rfl
+      · refine ⟨{ s with isLocal := true, startable := false },
+          by simp [accepts_cons, next_enter' me _ .preStart _ (show ({ s with isLocal := true } : St).mustStart = false from hc.preFailed.2)],
+          hid, rfl, Or.inr ?_⟩
+        exact hnew _ _ rfl rfl rfl rfl rfl rfl rfl rfl rfl rfl rfl rfl rfl rfl rfl
+    · refine ⟨{ s with startable := false }, by simp [accepts_cons, next_enter' me s .preStart _ hc.preFailed.2], hid, rfl, Or.inr ?_⟩
+      exact hnew _ _ rfl rfl rfl rfl rfl rfl (by simpa using hc.localEq) rfl rfl rfl rfl rfl rfl rfl rfl
   · exact ⟨s, rfl, by rw [hsup]; exact h⟩
 
-theorem opPollSpawn_sim (a : Actor) (s : St) (supOk : Bool) (h : Inv me a s) :
+theorem core_enter_pre {a a' : Actor} {s : St} (hc : Core a s) (hse : s.startedEmitted = false)
+    (h0 : a'.phase = .pre) (h1 : a'.armed = true) (h3 : a'.stopVal = a.stopVal) (h4 : a'.msgQ = a.msgQ)
+    (h5 : a'.stopTx = a.stopTx) (h6 : a'.sigVal = a.sigVal) (h8 : a'.isLocal = a.isLocal)
+    (hnp : ∀ r, a.phase ≠ .postStop r) :
+    Core a' { s with startable := false } :=
+  { preFailed := hc.preFailed, terminal := hc.terminal
+    localEq := by rw [h8]; exact hc.localEq
+    freshSig := by intro hfr; rw [h0] at hfr; cases hfr
+    stopVal := by rw [h3]; exact hc.stopVal
+    drain := by rw [h4]; exact hc.drain
+    stopTx := by rw [h5]; exact hc.stopTx
+    kill := by rw [h6]; exact hc.kill
+    armed := fun _ => h1
+    notify := by intro h'; rw [h0] at h'; simp [Phase.isTask] at h'
+    started := by
+      intro h'
+      rw [show ({ s with startable := false } : St).startedEmitted = s.startedEmitted from rfl, hse] at h'
+      cases h'
+    postStop := postStop_of_none (by rw [h0]; simp) (hc.tookNone hnp) }
+
+theorem beginPre_sim (a : Actor) (s : St) (hid : a.id = me) (hc : Core a s) (hph : a.phase = .cell) :
+    Sim (next me) (Post me s.sup) s (beginPre a) := by
+  have hse : s.startedEmitted = false := by
+    cases h' : s.startedEmitted with
+    | false => rfl
+    | true => have := hc.started h'; simp [hph, pastPostStart] at this
+  unfold beginPre
+  split
+  · refine Sim.andThen _ (R1 := fun a2 s2 => s2 = s ∧ a2.id = me)
+      ⟨s, by simp [handleSignal], rfl, by simpa [handleSignal] using hid⟩ ?_
+    rintro a2 s2 ⟨rfl, hid2⟩
+    exact failSpawn_sim me a2 .killed s2 hid2 rfl
+  · refine ⟨{ s with startable := false }, by simp [accepts_cons, next_enter' me s .preStart _ hc.preFailed.2],
+      by simpa using hid, rfl, Or.inr ?_⟩
+    exact core_enter_pre hc hse rfl (hc.armed (by simp [hph])) rfl rfl rfl rfl rfl (by simp [hph])
+
+theorem startInstant_sim (a : Actor) (s : St) (supOk : Bool) (hid : a.id = me) (hc : Core a s)
+    (hph : a.phase = .cell) (hst : a.status = .unstarted) :
+    Sim (next me) (Post me s.sup) s (startInstant a supOk) := by
+  unfold startInstant
+  simp only [hst, ne_eq, not_true_eq_false, ↓reduceIte]
+  have hc' : Core ({ a with status := .starting } : Actor) s :=
+    hc.congr' (by rfl) (by rfl) (by rfl) (by rfl) (by rfl) (by rfl) (by rfl) (by rfl)
+  split
+  · split
+    · split
+      · exact failSpawn_sim me _ .nolink s hid rfl
+      · refine Sim.andThen _ (R1 := fun a1 s1 => s1 = s ∧ a1.id = me ∧ a1.phase = .cell ∧ Core a1 s)
+          ⟨s, by simp, rfl, by simpa using hid, by simpa using hph,
+           hc.congr' (by simp) (by simp) (by simp) (by simp) (by simp) (by simp) (by simp) (by simp)⟩ ?_
+        rintro a1 s1 ⟨rfl, h1, h2, h3⟩
+        exact beginPre_sim me a1 s1 h1 h3 h2
+    · exact beginPre_sim me _ s hid hc' hph
+  · exact beginPre_sim me _ s hid hc' hph
+
+theorem opSpawnInstant_sim (a : Actor) (s : St) (sup : Option Nat) (name : Option String) (nameFree : Bool)
+    (isLocal : Bool) (h : Inv me a s) :
+    Sim (next me) (Post me a.sup) s (opSpawnInstant a sup name nameFree isLocal) := by
+  have hid := h.1
+  have hsup := h.2.1
+  rw [← hsup]
+  unfold opSpawnInstant
+  split
+  · rename_i hph
+    split
+    · exact ⟨s, by simp [accepts_cons], by rw [hsup]; exact h⟩
+    have hc := Inv.core me h (by simp [hph])
+    have hse : s.startedEmitted = false := by
+      cases h' : s.startedEmitted with
+      | false => rfl
+      | true => have := hc.started h'; simp [hph, pastPostStart] at this
+    have hnew : ∀ (a' : Actor) (s' : St), a'.phase = .cell → a'.armed = true → a'.stopVal = a.stopVal →
+        a'.msgQ = a.msgQ → a'.stopTx = a.stopTx → a'.sigVal = a.sigVal → s'.isLocal = a'.isLocal →
+        s'.preFailed = s.preFailed → s'.terminalEmitted = s.terminalEmitted → s'.stopReason = s.stopReason →
+        s'.drainReq = s.drainReq → s'.startedEmitted = s.startedEmitted → s'.killed = s.killed →
+        s'.mustStart = s.mustStart → s'.took = s.took → s'.fanTerminal = s.fanTerminal → Core a' s' := by
+      intro a' s' h0 h1 h3 h4 h5 h6 hl p1 p2 p3 p4 p5 p6 p7 p8 p9
+      exact { preFailed := by rw [p1, p7]; exact hc.preFailed, terminal := by rw [p2, p9]; exact hc.terminal
+              localEq := hl
+              freshSig := by intro hfr; rw [h0] at hfr; cases hfr
+              stopVal := by rw [h3, p3, p8]; exact hc.stopVal
+              drain := by rw [h4, p4]; exact hc.drain
+              stopTx := by rw [h5, p3]; exact hc.stopTx
+              kill := by rw [h6, p6]; exact hc.kill
+              armed := by intro _; exact h1
+              notify := by intro h'; rw [h0] at h'; simp [Phase.isTask] at h'
+              started := by intro h'; rw [p5, hse] at h'; cases h'
+              postStop := postStop_of_none (by rw [h0]; simp) (by rw [p8]; exact hc.tookNone (by simp [hph])) }
+    split
+    · refine ⟨{ s with isLocal := true }, by simp [accepts_cons], hid, rfl, Or.inr ?_⟩
+      exact hnew _ _ rfl rfl rfl rfl rfl rfl rfl rfl rfl rfl rfl rfl rfl rfl rfl rfl
+    · refine ⟨s, by simp [accepts_cons], hid, rfl, Or.inr ?_⟩
+      exact hnew _ _ rfl rfl rfl rfl rfl rfl (by simpa using hc.localEq) rfl rfl rfl rfl rfl rfl rfl rfl rfl
+  · exact ⟨s, rfl, by rw [hsup]; exact h⟩
+
+theorem opPollSpawn_sim (a : Actor) (s : St) (supOk : Bool) (h : Inv me a s) (hj : CellOk a) :
     Sim (next me) (Post me a.sup) s (opPollSpawn a supOk) := by
   have hid := h.1
   have hsup := h.2.1
   rw [← hsup]
   unfold opPollSpawn
   split
+  · rename_i hph
+    exact startInstant_sim me a s supOk hid (Inv.core me h (by simp [hph])) hph (hj (by simp [hph, Phase.early]))
   · rename_i hph
     have hc := Inv.core me h (by simp [hph])
     split
@@ -901,7 +1179,7 @@ theorem opPollSpawn_sim (a : Actor) (s : St) (supOk : Bool) (h : Inv me a s) :
       rintro a1 s1 ⟨hs1, hid1⟩
       refine Sim.andThen _ (R1 := fun a2 s2 => s2 = s1 ∧ a2.id = me) ⟨s1, by simp [handleSignal], rfl, by simpa [handleSignal] using hid1⟩ ?_
       rintro a2 s2 ⟨rfl, hid2⟩
-      have := failSpawn_sim me a2 .killed s2 hid2 (by simp)
+      have := failSpawn_sim me a2 .killed s2 hid2 rfl
       rwa [hs1] at this
     · rename_i hsig
       split
@@ -924,7 +1202,13 @@ theorem opDropSpawn_sim (a : Actor) (s : St) (h : Inv me a s) :
   split
   · obtain ⟨h1, h2, _⟩ := cleanup_none a
     refine ⟨{ s with preFailed := true }, ?_, ?_, rfl, Or.inl (by simp [Actor.dropPorts])⟩
-    · simp only [andThen_snd, andThen_fst, evs_append, evs_cons_ev, evs_nil, h1, List.append_nil]
+    · simp only [andThen_snd, andThen_fst, evs_append, evs_cons_ev, evs_cons_note, evs_nil, h1, List.append_nil]
+      rw [accepts_cons_ok _ _ (next_dropped me s)]
+      rfl
+    · simp [Actor.dropPorts, h2, hid]
+  · obtain ⟨h1, h2, _⟩ := cleanup_none a
+    refine ⟨{ s with preFailed := true }, ?_, ?_, rfl, Or.inl (by simp [Actor.dropPorts])⟩
+    · simp only [andThen_snd, andThen_fst, evs_append, evs_cons_ev, evs_nil, h1, List.append_nil, evs_ite_note]
       rw [accepts_cons_ok _ _ (next_dropped me s), accepts_cons_ok _ _ (next_cancelled_pre me _)]
       rfl
     · simp [Actor.dropPorts, h2, hid]
@@ -1007,41 +1291,70 @@ theorem envOp_sim (a : Actor) (s : St) (op : AOp) (h : Inv me a s) :
     · exact ⟨s, by simp [accepts_cons], h⟩
   | treeTaken =>
     simp only [Actor.envOp, opTreeTaken]
-    refine ⟨s, by simp, ?_⟩
     have hf := apiKill_frame { a with sup := none }
-    obtain ⟨h1, h2, h3, _⟩ := apiKill_fields { a with sup := none }
-    refine ⟨?_, h.2.1, ?_⟩
-    · split
-      · simpa [hf.id] using h.1
-      · exact h.1
-    · rcases h.2.2 with hd | hc
-      · left; split
-        · simpa [hf.phase] using hd
-        · exact hd
-      · right
-        split
-        · exact { preFailed := hc.preFailed, terminal := hc.terminal
-                  localEq := by simpa [hf.isLocal] using hc.localEq
+    obtain ⟨h1, h2, h3, h4⟩ := apiKill_fields { a with sup := none }
+    split
+    · -- the kill is issued; `s'` = the automaton after the optional `treeKill`
+      have hmain : ∀ s' : St, s'.sup = s.sup → s'.preFailed = s.preFailed → s'.terminalEmitted = s.terminalEmitted →
+          s'.stopReason = s.stopReason → s'.drainReq = s.drainReq → s'.isLocal = s.isLocal →
+          s'.startedEmitted = s.startedEmitted → s'.mustStart = s.mustStart → s'.took = s.took →
+          s'.fanTerminal = s.fanTerminal →
+          (Core a s → (apiKill { a with sup := none }).1.sigVal = true → s'.killed = true) →
+          Post me a.sup ({ (apiKill { a with sup := none }).1 with kids := none } : Actor) s' := by
+        intro s' q0 q1 q2 q3 q4 q5 q6 q7 q8 q9 hk
+        refine ⟨by simpa [hf.id] using h.1, by rw [q0]; exact h.2.1, ?_⟩
+        rcases h.2.2 with hd | hc
+        · left; simpa [hf.phase] using hd
+        · right
+          exact { preFailed := by rw [q1, q7]; exact hc.preFailed, terminal := by rw [q2, q9]; exact hc.terminal
+                  localEq := by rw [q5]; simpa [hf.isLocal] using hc.localEq
                   freshSig := by
                     intro hfr
                     have hfr' : a.phase = .fresh := by simpa [hf.phase] using hfr
                     rw [apiKill_fresh _ (by simpa using hfr')]
                     exact hc.freshSig hfr'
-                  stopVal := by simpa [h2] using hc.stopVal
-                  drain := by simpa [h1] using hc.drain
-                  stopTx := by simpa [h3] using hc.stopTx
-                  kill := by intro _; right; simpa using hf.sup
+                  stopVal := by rw [q3, q8]; simpa [h2] using hc.stopVal
+                  drain := by rw [q4]; simpa [h1] using hc.drain
+                  stopTx := by rw [q3]; simpa [h3] using hc.stopTx
+                  kill := by simpa using hk hc
                   armed := by simpa [hf.phase, hf.armed] using hc.armed
                   notify := by simpa [hf.phase, hf.notify] using hc.notify
-                  started := by simpa [hf.phase] using hc.started
-                  postStop := by simpa [hf.phase] using hc.postStop }
-        · exact { preFailed := hc.preFailed, terminal := hc.terminal
-                  localEq := by simpa using hc.localEq, freshSig := by simpa using hc.freshSig
-                  stopVal := by simpa using hc.stopVal, drain := by simpa using hc.drain
-                  stopTx := by simpa using hc.stopTx, kill := by intro _; right; rfl
-                  armed := by simpa using hc.armed, notify := by simpa using hc.notify
-                  started := by simpa using hc.started, postStop := by simpa using hc.postStop }
+                  started := by rw [q6]; simpa [hf.phase] using hc.started
+                  postStop := by rw [q8]; simpa [hf.phase] using hc.postStop }
+      cases hk : (apiKill { a with sup := none }).2 with
+      | true =>
+        exact ⟨{ s with killed := true }, by simp [hk, accepts_cons], hmain _ rfl rfl rfl rfl rfl rfl rfl rfl rfl rfl (fun _ _ => rfl)⟩
+      | false =>
+        refine ⟨s, by simp [hk], hmain _ rfl rfl rfl rfl rfl rfl rfl rfl rfl rfl ?_⟩
+        intro hc hsv
+        rw [h4 hk] at hsv
+        exact hc.kill (by simpa using hsv)
+    · refine ⟨s, by simp, h.1, h.2.1, ?_⟩
+      rcases h.2.2 with hd | hc
+      · left; exact hd
+      · right
+        exact { preFailed := hc.preFailed, terminal := hc.terminal
+                localEq := by simpa using hc.localEq, freshSig := by simpa using hc.freshSig
+                stopVal := by simpa using hc.stopVal, drain := by simpa using hc.drain
+                stopTx := by simpa using hc.stopTx, kill := by simpa using hc.kill
+                armed := by simpa using hc.armed, notify := by simpa using hc.notify
+                started := by simpa using hc.started, postStop := by simpa using hc.postStop }
+  | link p ok =>
+    simp only [Actor.envOp, opLink]
+    split
+    · exact ⟨s, rfl, h⟩
+    · exact ⟨s, by simp, h.1, h.2.1, h.2.2.imp id (fun hc =>
+        hc.congr' (by rfl) (by rfl) (by rfl) (by rfl) (by rfl) (by rfl) (by rfl) (by rfl))⟩
+  | unlink p =>
+    simp only [Actor.envOp, opUnlink]
+    split
+    · exact ⟨s, by simp, h.1, h.2.1, h.2.2.imp id (fun hc =>
+        hc.congr' (by rfl) (by rfl) (by rfl) (by rfl) (by rfl) (by rfl) (by rfl) (by rfl))⟩
+    · exact ⟨s, rfl, h⟩
   | kidAdd c => exact ⟨s, rfl, Post.congr (by rfl) (by rfl) (by rfl) (by rfl) (by rfl) (by rfl) (by rfl) (by rfl) (by rfl) (by rfl) h⟩
+  | monAdd m => exact ⟨s, rfl, Post.congr (by rfl) (by rfl) (by rfl) (by rfl) (by rfl) (by rfl) (by rfl) (by rfl) (by rfl) (by rfl) h⟩
+  | monDel m => exact ⟨s, rfl, Post.congr (by rfl) (by rfl) (by rfl) (by rfl) (by rfl) (by rfl) (by rfl) (by rfl) (by rfl) (by rfl) h⟩
+  | monDrop m => exact ⟨s, by simp [Actor.envOp], Post.congr (by rfl) (by rfl) (by rfl) (by rfl) (by rfl) (by rfl) (by rfl) (by rfl) (by rfl) (by rfl) h⟩
   | kidDel c => exact ⟨s, rfl, Post.congr (by rfl) (by rfl) (by rfl) (by rfl) (by rfl) (by rfl) (by rfl) (by rfl) (by rfl) (by rfl) h⟩
   | call k =>
     refine ⟨s, by simp [Actor.envOp, accepts_cons], ?_⟩
@@ -1067,11 +1380,12 @@ theorem envOp_sim (a : Actor) (s : St) (op : AOp) (h : Inv me a s) :
   | pollWait w => exact ⟨s, by simp [Actor.envOp, accepts_cons], h⟩
   | _ => exact ⟨s, rfl, h⟩
 
-theorem stepCore_sim (a : Actor) (s : St) (op : AOp) (h : Inv me a s) :
+theorem stepCore_sim (a : Actor) (s : St) (op : AOp) (h : Inv me a s) (hj : CellOk a) :
     Sim (next me) (Post me a.sup) s (a.stepCore op) := by
   cases op with
   | spawn sup name nameFree isLocal supOk => exact opSpawn_sim me a s sup name nameFree isLocal supOk h
-  | pollSpawn supOk => exact opPollSpawn_sim me a s supOk h
+  | spawnInstant sup name nameFree isLocal => exact opSpawnInstant_sim me a s sup name nameFree isLocal h
+  | pollSpawn supOk => exact opPollSpawn_sim me a s supOk h hj
   | dropSpawn => exact opDropSpawn_sim me a s h
   | poll => exact Sim.pollMark _ (next_polled me) (opPoll_sim me a s h)
   | abort => exact opAbort_sim me a s h
@@ -1088,30 +1402,32 @@ theorem Core.setSup {a : Actor} {s : St} (p : Option Nat) (hc : Core a s) : Core
     stopTx := hc.stopTx, kill := hc.kill, armed := hc.armed, notify := hc.notify, started := hc.started,
     postStop := hc.postStop }
 
-theorem step_sim (a : Actor) (s : St) (op : AOp) (h : Inv me a s) :
+theorem step_sim (a : Actor) (s : St) (op : AOp) (h : Inv me a s) (hj : CellOk a) :
     Sim (next me) (Inv me) s (a.step op) := by
-  obtain ⟨s1, hacc, hid, hsup, hrest⟩ := stepCore_sim me a s op h
+  obtain ⟨s1, hacc, hid, hsup, hrest⟩ := stepCore_sim me a s op h hj
   rw [step_eq]
   by_cases heq : (a.stepCore op).1.sup = a.sup
   · refine ⟨s1, ?_, hid, by rw [hsup, heq], hrest⟩
     simp only [supTail, heq, ↓reduceIte, List.append_nil, evs_append]
     rw [accepts_append _ _ hacc]
-    exact accepts_snapTail _ (next_snap me) s1 _
+    exact accepts_snapTail' me s1 _
   · refine ⟨{ s1 with sup := (a.stepCore op).1.sup }, ?_, hid, rfl, ?_⟩
     · simp only [supTail, heq, ↓reduceIte, evs_append]
       rw [accepts_append (s' := { s1 with sup := (a.stepCore op).1.sup }) _ _ (by rw [accepts_append _ _ hacc]; simp [accepts_cons])]
-      exact accepts_snapTail _ (next_snap me) _ _
+      exact accepts_snapTail' me _ _
     · rcases hrest with hd | hc
       · exact Or.inl hd
       · exact Or.inr (hc.setSup _)
 
-theorem run_sim (ops : List AOp) (a : Actor) (s : St) (h : Inv me a s) :
+theorem run_sim (ops : List AOp) (a : Actor) (s : St) (h : Inv me a s) (s01 : Life.C01.St)
+    (h01 : Life.C01.Inv a s01) (hj : CellOk a) :
     ∃ s', accepts (next me) s (a.run ops).2 = .ok s' ∧ Inv me (a.run ops).1 s' := by
-  induction ops generalizing a s with
+  induction ops generalizing a s s01 with
   | nil => exact ⟨s, rfl, h⟩
   | cons op ops ih =>
-    obtain ⟨s1, hacc, hinv⟩ := step_sim me a s op h
-    obtain ⟨s2, hacc2, hinv2⟩ := ih _ s1 hinv
+    obtain ⟨s1, hacc, hinv⟩ := step_sim me a s op h hj
+    obtain ⟨t1, _, h01'⟩ := Life.C01.step_sim a s01 op h01
+    obtain ⟨s2, hacc2, hinv2⟩ := ih _ s1 hinv t1 h01' (cellOk_step a s01 op h01 hj)
     refine ⟨s2, ?_, hinv2⟩
     simp only [Actor.run]
     rw [accepts_append _ _ hacc]
@@ -1119,7 +1435,7 @@ theorem run_sim (ops : List AOp) (a : Actor) (s : St) (h : Inv me a s) :
 
 theorem inv_init (id : Nat) : Inv id (Actor.init id) {} := by
   refine ⟨rfl, rfl, Or.inr ?_⟩
-  exact { preFailed := rfl, terminal := rfl, localEq := rfl, freshSig := by simp [Actor.init],
+  exact { preFailed := ⟨rfl, rfl⟩, terminal := ⟨rfl, rfl⟩, localEq := rfl, freshSig := by simp [Actor.init],
           stopVal := by simp [Actor.init], drain := by simp [Actor.init],
           stopTx := by simp, kill := by simp [Actor.init], armed := by simp [Actor.init],
           notify := by simp [Actor.init, Phase.isTask], started := by simp, postStop := by simp [Actor.init] }
